@@ -139,7 +139,23 @@ pub fn check_ops(ctx: &mut Ctx, ops: &[Op], creds: &RefCreds) {
 /// 2 = `builder_error`, 3 = `bad_request`, 4 = `unknown_attributes` (the canned responses arrive with
 /// attributes already in them; the rules and the queries apply to those just the same), 5 / 6 / 7 =
 /// `Message::builder` of class indication / success / error.
+struct OpsCase<'a>(u8, &'a [Op], &'a RefCreds);
+impl crate::ctx::WitnessSrc for OpsCase<'_> {
+    fn witness(&self) -> Value {
+        let mut v = wit(self.1, self.2);
+        v["start"] = json!(self.0);
+        v
+    }
+}
+
 pub fn check_ops_from(ctx: &mut Ctx, start: u8, ops: &[Op], creds: &RefCreds) {
+    let case = OpsCase(start, ops, creds);
+    let opened = ctx.wd.enter_case_src("builder-operations", &case);
+    check_ops_from_inner(ctx, start, ops, creds);
+    ctx.wd.leave_case(opened);
+}
+
+fn check_ops_from_inner(ctx: &mut Ctx, start: u8, ops: &[Op], creds: &RefCreds) {
     ctx.eval();
     let tpool = typed_pool();
     let rpool = raw_pool();
